@@ -172,3 +172,13 @@ package keeper
 //@   ensures #c04-failed-withdraw-refunds-escrow: result == nil && R.Status == types.RequestStatusNotExecuted && status == types.RequestStatusFailed && R.PoolCoin.Amount > 0 ==> bal(ge, d) == old(bal(ge, d)) - R.PoolCoin.Amount && bal(w, d) == old(bal(w, d)) + R.PoolCoin.Amount
 //@   ensures #c04-succeeded-withdraw-moves-nothing: result == nil && R.Status == types.RequestStatusNotExecuted && status != types.RequestStatusFailed ==> forall a, dd :: bal(a, dd) == old(bal(a, dd))
 //@   ensures #c04-status-stored: result == nil && R.Status == types.RequestStatusNotExecuted ==> k.GetWithdrawRequest(ctx, R.AppId, R.PoolId, R.Id).1 && k.GetWithdrawRequest(ctx, R.AppId, R.PoolId, R.Id).0.Status == status
+
+// Single-order cancel (C12, C07): succeeds only for the orderer of that order, only for an order that is not in its
+// placement batch and not already cancelled.
+//@ func (k Keeper) ValidateMsgCancelOrder
+//@   property C12, C07
+//@   let o0 = k.GetOrder(ctx, msg.AppId, msg.PairId, msg.OrderId)
+//@   let pr = k.GetPair(ctx, msg.AppId, msg.PairId).0
+//@   ensures [C12] #c12-orderer-only: err == nil ==> o0.1 && msg.Orderer == o0.0.Orderer && order == o0.0
+//@   ensures [C07] #c07-not-in-placement-batch: err == nil ==> o0.0.BatchId != pr.CurrentBatchId && o0.0.Status != types.OrderStatusCanceled
+//@   ensures [C07] #c07-old-order-can-be-cancelled: o0.1 && K("asset").GetApp(ctx, msg.AppId).1 && msg.Orderer == o0.0.Orderer && o0.0.Status != types.OrderStatusCanceled && o0.0.BatchId != pr.CurrentBatchId ==> err == nil
